@@ -576,6 +576,8 @@ class Evaluator:
                 return a + b
             if isinstance(e.op, ast.Mult) and isinstance(a, (bytes, str, tuple)) and isinstance(b, int) and 0 <= b < 10000:
                 return a * b
+            if isinstance(e.op, ast.Mult) and isinstance(b, (bytes, str, tuple)) and isinstance(a, int) and not isinstance(a, bool) and 0 <= a < 10000:
+                return a * b
             if not isinstance(a, int) or not isinstance(b, int):
                 raise Unsupported(e)
             op = e.op
